@@ -494,7 +494,7 @@ def lazy_properties(repo):
 def a1_type_table(ctx, geo):
     repo = ctx.repo
     cls = repo.cls(ATTR, "_BaseAttribute.Type")
-    fold = cc.Folder(cls)
+    fold = cc.folder_for(repo, ATTR, "_BaseAttribute.Type")
     members = fold.members
     tsite = ctx.site(ATTR, "_BaseAttribute.Type")
     if len(members) < 3:
